@@ -417,7 +417,7 @@ func main() {
 		caseFilter = regexp.MustCompile(f)
 	}
 
-	hk.Rule("case = (target, option set, mutation class, corpus item or batch); enumerative classes (truncation at every offset; every 1/2/4-byte window overwritten with boundary values up to 2^32-1; every byte replaced by every EDF type tag) are complete per valid encoding (valid encodings = encoder output for 116 values plus hand-built encodings from a reference encoder of the harness covering the length variants: 15/16 byte times, strings/binaries/atoms/errors at the length-field thresholds, plain and inside slices, []any, maps, structs, arrays), random classes (bit flips, multi-edits, splices, unknown cache ids, random type descriptors with nested arrays/maps/slices, PRNG bytes) are functions of (seed, case id, index); handshake: message k of a real Start/Accept/Join exchange replaced by its mutation; live: recorded valid frames mutated (frame length 0..7 and > max, truncation with fixed-up length, body edits, compression envelopes with false sizes, envelope chains) and written on an authenticated raw link. A case is non-trivial iff at least one of its inputs was parsed past the first field (decode succeeded, or failed with an error class other than unknown-type/empty input; handshake: the mutated message was read by the peer under test; live: the frame reached the receive queue handler or the length check of the reader). Distinct = target x class x most frequent non-trivial outcome class.")
+	hk.Rule("case = (target, option set, mutation class, corpus item or batch); enumerative classes (truncation at every offset; every 1/2/4-byte window overwritten with boundary values up to 2^32-1; every byte replaced by every EDF type tag) are complete per valid encoding (valid encodings = encoder output for 116 values plus hand-built encodings from a reference encoder of the harness covering the length variants: 15/16 byte times, strings/binaries/atoms/errors at the length-field thresholds, plain and inside slices, []any, maps, structs, arrays), random classes (bit flips, multi-edits, splices, unknown cache ids, random type descriptors with nested arrays/maps/slices, PRNG bytes) are functions of (seed, case id, index); handshake: message k of a real Start/Accept/Join exchange replaced by its mutation; live: recorded valid frames mutated (frame length 0..7 and > max, truncation with fixed-up length, body edits, compression envelopes with false sizes, envelope chains) and written on an authenticated raw link; authenticated Join handshakes naming an unknown / just closed / another peer's live / the own live connection id, followed by valid and hostile frames on the joined socket. A case is non-trivial iff at least one of its inputs was parsed past the first field (decode succeeded, or failed with an error class other than unknown-type/empty input; handshake: the mutated message was read by the peer under test; live: the frame reached the receive queue handler or the length check of the reader). Distinct = target x class x most frequent non-trivial outcome class.")
 	hk.Assume("out of proportion = more than 64 MiB + 4096 x input bytes of cumulative heap allocation during the call (runtime/metrics /gc/heap/allocs:bytes), or the child dying of out-of-memory under RLIMIT_AS; hanging = more than 30 s of process CPU time inside one call (rusage)")
 	hk.Assume("inputs that begin with a type descriptor whose array lengths multiply to more than 64 MiB of element storage (a static property of the input bytes) are executed only 2 times per case, the rest is counted as skipped: on a tree that allocates by the declared array length each of them costs a child process")
 	hk.Assume("a case stops executing inputs after 3 expensive violations (5 for the enumerative classes, where only the inputs that modify the same bytes as an expensive input are skipped) (child crash, CPU hang, allocation out of proportion: each costs a child process or seconds of page zeroing); the remaining inputs of that case are counted as not executed. Without such violations every input is executed")
